@@ -38,7 +38,7 @@ ASSUMPTIONS = ["float64 CPU, 1 thread", "scf_eps 1e-10 (SCF noise is 2-3 orders 
 REQUIRED_MONITORS = ["rows_compared", "padding_only_pairs", "swap_pairs", "cis_rows_compared", "md_rows_compared",
                      "sp2_calls", "perm_layouts", "parser_calls_checked", "equal_norb_batches", "finite_T_batches", "fermi_q_calls",
                      "md_dof_ratio_rows", "md_dof_scale_vel_rows", "scf_cycle_rows_compared", "cis_state_dipole_rows_compared",
-                     "cis_all_forces_rows_compared"]
+                     "cis_all_forces_rows_compared", "excited_fast_row_before_slow_row_batches"]
 # thorough tier: cases not started after this many seconds are skipped and reported (env override for smoke tests)
 BUDGET_S = {"thorough": float(__import__("os").environ.get("VERIF_C05_BUDGET", "1700"))}
 CASE_TIMEOUT = 900.0
@@ -261,6 +261,28 @@ def _cisall_cases(g, tier):
     return out
 
 
+def _symdist_cases(g, tier):
+    """Named cells: same-species excited-state batches (RPA and CIS) built from ONE undistorted, high-symmetry library geometry
+    (its Davidson iteration converges fast) and one or two distorted ones (slower), in ALL orders: excitation energies and
+    ground-state outputs alone vs batch.  Batch-coupled bookkeeping of per-row solver state (subspace sizes, finished rows)
+    only shows when a faster row sits before a slower one."""
+    names = ["C2H4", "CH2O", "H2O", "NH3", "C2H2", "CO2", "HCN", "CH4"]
+    if tier == "quick":
+        plan = [("AM1", "rpa", "C2H4", 2), ("PM3", "rpa", None, 3), ("AM1", "cis", None, 2), ("MNDO", "rpa", None, 2), ("AM1", "rpa", "C2H4", 3)]
+    else:
+        plan = [(m, e, None, n) for m in ("AM1", "PM3", "MNDO") for e in ("rpa", "cis", "rpa") for n in (2, 3)] + [("AM1", "rpa", "C2H4", 2)]
+    out = []
+    for method, em, fixed, n in plan:
+        av = [x for x in names if gen.available(x, method)]
+        nm = fixed or av[int(g.integers(0, len(av)))]
+        mem = [{"mol": nm, "geom_seed": int(g.integers(0, 2**31)), "sigma": 0.0}] + \
+              [{"mol": nm, "geom_seed": int(g.integers(0, 2**31)), "sigma": float(g.choice([0.02, 0.05]))} for _ in range(n - 1)]
+        out.append({"kind": "cisall", "tag": "sym-dist", "energies_only": True, "method": method, "exc_method": em, "members": mem,
+                    "n_states": 3, "judged_states": 3, "orders": [list(p) for p in itertools.permutations(range(n))], "pad": 0,
+                    "padval": 0.0, "seed": int(g.integers(0, 2**31))})
+    return out
+
+
 def _md_dof_cases(g, tier):
     """Named cells: a non-linear molecule alone vs batched with a diatomic (both orders), remove_com=('angular', 1):
     (a) Temp > 0, velocities drawn by the engine - the draws differ between the two runs (different tensor shapes), so
@@ -384,6 +406,7 @@ def gen_cases(tier, seed):
     sp += _loose_eps_cases(gen.rng("C05", tier, "loose-eps"), tier)
     cases += _md_dof_cases(gen.rng("C05", tier, "md-dof"), tier)
     cases += _cisall_cases(gen.rng("C05", tier, "cisall"), tier)
+    cases += _symdist_cases(gen.rng("C05", tier, "sym-dist"), tier)
     return sp[:3] + cases + sp[3:]
 
 
@@ -476,7 +499,7 @@ def _norb(Z, method):
 
 def _member(m):
     Z, X, q, mult = gen.molecule(m["mol"])
-    Xd = gen.distort(X, np.random.default_rng(m["geom_seed"]), sigma=0.05)
+    Xd = gen.distort(X, np.random.default_rng(m["geom_seed"]), sigma=m.get("sigma", 0.05)) if m.get("sigma", 0.05) > 0 else np.array(X, float)
     # generic orientation: every pair vector >= 5 degrees from every Cartesian axis, so that the known frame
     # singularity near +-x (C02's finding) cannot enter any comparison made here
     Xd = Xd - Xd.mean(axis=0)
@@ -1179,9 +1202,12 @@ def _run_cisall(case):
     mems = [_member(m) for m in case["members"]]
     from vlib import run
 
-    sett = run.settings(case["method"], eps=EPS, converger=(2,), grad="analytical",
+    eonly = bool(case.get("energies_only"))
+    sett = run.settings(case["method"], eps=EPS, converger=(2,), grad="autodiff" if eonly else "analytical",
                         excited={"n_states": case["n_states"], "tolerance": 1e-8, "method": case["exc_method"]},
-                        extra={"do_all_forces": True})
+                        extra=None if eonly else {"do_all_forces": True})
+    if case.get("tag") == "sym-dist":
+        acc.cells.add("sym-dist/%s/%s/%s/nmol=%d" % (case["method"], case["exc_method"], case["members"][0]["mol"], len(mems)))
     n = len(mems[0]["Z"])
     nj = case["judged_states"]
     acc.cells.add("cisall/%s/%s/nmol=%d/pad=+%d" % (case["method"], case["exc_method"], len(mems), case["pad"]))
@@ -1197,6 +1223,11 @@ def _run_cisall(case):
         mols = [mems[i] for i in order]
         S, C = _batch_arrays(mols, case["pad"], case["padval"], case["seed"])
         b, exc = _exc_run(S, C, sett, mols)
+        if case.get("tag") == "sym-dist":
+            sig = [case["members"][i].get("sigma", 0.05) for i in order]
+            if any(sig[x] == 0.0 and any(y > 0 for y in sig[x + 1:]) for x in range(len(sig))):
+                acc.count("excited_fast_row_before_slow_row_batches")
+            acc.count("excited_sym_dist_batches")
         if exc is not None:
             info = _exc_info(exc)
             if "did not converge" in info["msg"] or "not converged" in info["msg"]:
@@ -1222,7 +1253,7 @@ def _run_cisall(case):
             chk("d_ground_force", np.abs(a["force"][0][:n] - b["force"][k][:n]).max(), A_F)
             if a.get("dipole") is not None and b.get("dipole") is not None:
                 chk("d_ground_dipole", np.abs(a["dipole"][0] - b["dipole"][k]).max(), A_MU)
-            for r in range(nj):
+            for r in range(0 if eonly else nj):
                 if not sep[r]:
                     acc.count("cisall_states_not_separated")
                     continue
